@@ -6,6 +6,7 @@
 #include <shark/Models/NeuronLayers.h>
 #include <shark/Models/ConcatenatedModel.h>
 #include "common.hpp"
+#include <memory>
 using namespace shark;
 
 static bool parseDy(std::string const& t, double& out){
@@ -61,6 +62,98 @@ std::string oracle(Model& model, RealMatrix const& X, RealMatrix const& C, RealV
 	return bad;
 }
 
+// finite-difference search aid (independent of the Lean model): central differences of the
+// coefficient-weighted output sum w.r.t. every input entry and every parameter
+template<class Model>
+std::string fdOracle(Model& model, RealMatrix const& X, RealMatrix const& C, RealVector const& p){
+	std::string bad;
+	model.setParameterVector(p);
+	boost::shared_ptr<State> st = model.createState();
+	RealMatrix out; model.eval(X, out, *st);
+	RealVector g; RealMatrix d;
+	model.weightedParameterDerivative(X, out, C, *st, g);
+	model.weightedInputDerivative(X, out, C, *st, d);
+	auto objective = [&](RealMatrix const& XX){ RealMatrix o; model.eval(XX, o); double s = 0; for(std::size_t i = 0; i != o.size1(); ++i) for(std::size_t k = 0; k != o.size2(); ++k) s += C(i,k)*o(i,k); return s; };
+	double const h = 1e-5;
+	if(d.size1() == X.size1() && d.size2() == X.size2()){
+		for(std::size_t i = 0; i != X.size1() && bad.empty(); ++i) for(std::size_t j = 0; j != X.size2(); ++j){
+			RealMatrix A = X, B = X; A(i,j) += h; B(i,j) -= h;
+			double fd = (objective(A) - objective(B)) / (2*h);
+			if(!(std::fabs(fd - d(i,j)) <= 1e-4 * (1 + std::fabs(fd)))){ bad += " !oracle input-derivative-differs-from-finite-differences"; break; }
+		}
+	}else bad += " !oracle input-derivative-shape";
+	for(std::size_t q = 0; q != p.size(); ++q){
+		RealVector a = p, b = p; a(q) += h; b(q) -= h;
+		model.setParameterVector(a); double fa = objective(X);
+		model.setParameterVector(b); double fb = objective(X);
+		double fd = (fa - fb) / (2*h);
+		if(!(std::fabs(fd - g(q)) <= 1e-4 * (1 + std::fabs(fd)))){ bad += " !oracle parameter-derivative-differs-from-finite-differences"; break; }
+	}
+	model.setParameterVector(p);
+	return bad;
+}
+
+typedef AbstractModel<RealVector,RealVector,RealVector> AnyModel;
+static AnyModel* makeDense(std::string const& act, std::size_t nIn, std::size_t nOut, bool hb){
+	if(act == "linear") return new LinearModel<RealVector, LinearNeuron>(nIn, nOut, hb);
+	if(act == "rectifier") return new LinearModel<RealVector, RectifierNeuron>(nIn, nOut, hb);
+	if(act == "tanh") return new LinearModel<RealVector, TanhNeuron>(nIn, nOut, hb);
+	if(act == "logistic") return new LinearModel<RealVector, LogisticNeuron>(nIn, nOut, hb);
+	if(act == "fastsigmoid") return new LinearModel<RealVector, FastSigmoidNeuron>(nIn, nOut, hb);
+	return 0;
+}
+static AnyModel* makeNeuron(std::string const& act, std::size_t n){
+	if(act == "linear") return new NeuronLayer<LinearNeuron>(n);
+	if(act == "rectifier") return new NeuronLayer<RectifierNeuron>(n);
+	if(act == "tanh") return new NeuronLayer<TanhNeuron>(n);
+	if(act == "logistic") return new NeuronLayer<LogisticNeuron>(n);
+	if(act == "fastsigmoid") return new NeuronLayer<FastSigmoidNeuron>(n);
+	if(act == "softmax") return new NeuronLayer<SoftmaxNeuron<> >(n);
+	if(act == "normalizer") return new NeuronLayer<NormalizerNeuron<> >(n);
+	return 0;
+}
+// chain B nIn | specs | params (ALL dense layers, optimised or not, in layer order) | X | C
+static std::string chain(std::size_t B, std::size_t nIn0, std::vector<std::string> const& specs, std::vector<double> const& p, std::vector<double> const& xs, std::vector<double> const& cs){
+	std::vector<std::unique_ptr<AnyModel> > layers; std::vector<bool> opt;
+	std::size_t nIn = nIn0, used = 0; bool kinky = false;
+	ConcatenatedModel<RealVector> m;
+	RealVector optParams;
+	for(std::string const& sp: specs){
+		std::vector<std::string> f; { std::string cur; for(char ch: sp){ if(ch == ':'){ f.push_back(cur); cur.clear(); } else cur += ch; } f.push_back(cur); }
+		if(f[0] == "d" && f.size() == 5){
+			bool hb = f[2] == "1"; std::size_t nOut = std::stoul(f[3]); bool o = f[4] == "1";
+			AnyModel* l = makeDense(f[1], nIn, nOut, hb); if(!l) return "bad-op";
+			std::size_t np = nOut*nIn + (hb ? nOut : 0);
+			if(used + np > p.size()) return "bad-op";
+			RealVector lp(np); for(std::size_t i = 0; i != np; ++i) lp(i) = p[used+i];
+			used += np; l->setParameterVector(lp);
+			if(o){ RealVector np2(optParams.size() + np); noalias(subrange(np2, 0, optParams.size())) = optParams; noalias(subrange(np2, optParams.size(), np2.size())) = lp; optParams = np2; }
+			layers.emplace_back(l); opt.push_back(o); nIn = nOut;
+			if(f[1] == "rectifier" || f[1] == "fastsigmoid") kinky = true;
+		}else if((f[0] == "n" || f[0] == "r") && f.size() == 3){
+			AnyModel* l = makeNeuron(f[1], nIn); if(!l) return "bad-op";
+			layers.emplace_back(l); opt.push_back(f[2] == "1");
+			if(f[1] == "rectifier" || f[1] == "fastsigmoid") kinky = true;
+		}else return "bad-op";
+	}
+	if(used != p.size() || xs.size() != B*nIn0 || cs.size() != B*nIn) return "bad-op";
+	for(std::size_t i = 0; i != layers.size(); ++i) m.add(layers[i].get(), opt[i]);
+	RealMatrix X = toMat(xs, B, nIn0), C = toMat(cs, B, nIn);
+	std::string orc = oracle(m, X, C, optParams, true);
+	if(!kinky) orc += fdOracle(m, X, C, optParams);
+	m.setParameterVector(optParams);
+	boost::shared_ptr<State> st = m.createState();
+	RealMatrix E; m.eval(X, E, *st);
+	RealVector gp, gp2; RealMatrix gx, gx2;
+	m.weightedParameterDerivative(X, E, C, *st, gp);
+	m.weightedInputDerivative(X, E, C, *st, gx);
+	m.weightedDerivatives(X, E, C, *st, gp2, gx2);
+	std::ostringstream os;
+	os << "NP=" << m.numberOfParameters() << " PV=" << showVec(m.parameterVector()) << " E=" << showMat(E) << " GP=" << showVec(gp) << " GX=" << showMat(gx)
+	   << " GP2=" << showVec(gp2) << " GX2=" << showMat(gx2) << orc;
+	return os.str();
+}
+
 template<class Act>
 std::string dense(bool hasB, std::size_t nIn, std::size_t nOut, std::size_t B, std::vector<double> const& p, std::vector<double> const& xs, std::vector<double> const& cs, bool exact){
 	LinearModel<RealVector, Act> m(nIn, nOut, hasB);
@@ -102,6 +195,7 @@ std::string rowact(std::size_t n, std::size_t B, std::vector<double> const& zs, 
 	NeuronLayer<Neuron> m(n);
 	RealMatrix Z = toMat(zs, B, n), D = toMat(ds, B, n);
 	std::string orc = oracle(m, Z, D, RealVector(), false);
+	{ RealVector none; orc += fdOracle(m, Z, D, none); }
 	boost::shared_ptr<State> st = m.createState();
 	RealMatrix E; m.eval(Z, E, *st);
 	RealMatrix der; m.weightedInputDerivative(Z, E, D, *st, der);
@@ -144,6 +238,8 @@ int main(){
 			bool h1 = h[2] == "1", h2 = h[4] == "1";
 			if(p.size() == nHid*nIn + (h1 ? nHid : 0) + nOut*nHid + (h2 ? nOut : 0) && xs.size() == B*nIn && cs.size() == B*nOut)
 				out = concat1(h[1], h[3], h1, h2, nIn, nHid, nOut, B, p, xs, cs);
+		}else if(secs.size() == 5 && secs[0].size() == 3 && secs[0][0] == "chain" && nums(secs[2], p) && nums(secs[3], xs) && nums(secs[4], cs)){
+			out = chain(std::stoul(secs[0][1]), std::stoul(secs[0][2]), secs[1], p, xs, cs);
 		}else if(secs.size() == 3 && secs[0].size() == 4 && secs[0][0] == "rowact" && nums(secs[1], xs) && nums(secs[2], cs)){
 			std::size_t n = std::stoul(secs[0][2]), B = std::stoul(secs[0][3]);
 			if(xs.size() == n*B && cs.size() == n*B){
